@@ -230,6 +230,8 @@ class PathCond(Domain):
                         envd['@' + tgt.id] = ('alias', src)
                 elif isinstance(v, ast.Constant) and v.value is None:
                     pc = f_and(pc, ('atom', f'{tgt.id} is None'))
+                elif isinstance(v, (ast.Tuple, ast.List, ast.Dict, ast.Set, ast.JoinedStr, ast.Constant)):
+                    pc = f_and(pc, f_not(('atom', f'{tgt.id} is None')))      # a display is never None
         elif isinstance(st, (ast.AugAssign,)) and isinstance(st.target, ast.Name):
             envd.pop(st.target.id, None)
             envd = {k: f for k, f in envd.items() if st.target.id not in _names_in(f)}
